@@ -16,5 +16,4 @@ CONSTANTS
   BlockSeconds = 12
   Starts = {0}
 CONSTRAINT Hwm
-INVARIANTS NoUnderflow SigningStartsAfterStart SigningEndsBeforeMargin LoopFits AttemptWindow PostEndsBeforeExpiry
 POSTCONDITION Accepted
